@@ -113,6 +113,16 @@ func (s *Session) prescan() {
 			}
 		}
 	}
+	// struct types of other modules that the prelude declares observations of
+	for _, q := range []string{"github.com/vmihailenco/msgpack/v5.Encoder"} {
+		i := strings.LastIndex(q, ".")
+		if pkg := s.P.Prog.ImportedPackage(q[:i]); pkg != nil {
+			if tn, ok := pkg.Pkg.Scope().Lookup(q[i+1:]).(*types.TypeName); ok {
+				S.sortOf(tn.Type())
+				S.heapForPointee(tn.Type())
+			}
+		}
+	}
 	sort.Strings(S.boxOrder)
 	sort.Strings(S.structOrder)
 	sort.Strings(S.mapOrder)
